@@ -317,6 +317,21 @@ pub fn run(env: &Env) -> PropRun {
     parts.push(run_part(env, "enum-sequences", es.len(), true, "47 sequence families x 4 prefixes x 2 suffixes x 2 sizes x {unlimited, limit 0}: each input fed whole, per character (feed_str and feed()), and cut at every single position", &|i| es.get(i).cloned(), &j));
     parts.push(random_part(env, "short-all-cuts", env.tier.scale(40_000, 30), &gen_short, &j));
     parts.push(random_part(env, "scroll-bursts", env.tier.scale(12_000, 30), &gen_scroll_bursts, &j));
+    // more scrolls inside one call than any 16-bit counter or batch size holds, on both
+    // screens (the alternate screen keeps no scrollback whatever the configured limit)
+    let mut fl: Vec<Case> = vec![];
+    for n in [65_535usize, 65_537, 70_000, 140_000] {
+        for pre in ["", "\x1b[?1049h", "\x1b[?1047h\x1b[1;2r", "\x1b[1;2r"] {
+            for unit in ["\n", "x\n"] {
+                for limit in [None, Some(7usize)] {
+                    let mut c = Case::new(4, 3, limit).feed(format!("{}{}", pre, unit.repeat(n)));
+                    c.calls.push(Call::FeedStr("tail\x1b[H".into()));
+                    fl.push(c);
+                }
+            }
+        }
+    }
+    parts.push(run_part(env, "enum-floods", fl.len(), true, "4x3: {65535, 65537, 70000, 140000} line feeds (bare / after a character) in ONE feed_str x {primary, alternate, either with a top-anchored region} x {unlimited, limit 7}: whole vs per character (feed_str and feed()) vs the given cut", &|i| fl.get(i).cloned(), &j));
     parts.push(random_part(env, "long-inputs", env.tier.scale(200, 30), &gen_long, &j));
     parts.push(random_part(env, "structured", env.tier.scale(25_000, 30), &gen_structured, &j));
     parts.push(random_part(env, "raw", env.tier.scale(15_000, 30), &gen_raw, &j));
